@@ -395,4 +395,113 @@ theorem floatOfStr_render (n : Numeral) (hw : n.WF) : floatOfStr n.render = toF6
   unfold floatOfStr pyFloat parseDecimal
   simp only [String.toList_ofList, strip_ok _ hok, dropUnderscores_ok _ false hok, parseBody_render n hw, Option.bind_some]
 
+/-! ## subnormal doubles: the shortest-repr decimal rounds back too -/
+
+theorem pow10_m400_le_sub : pow10 (-400) ≤ pow2 (-1074) := by
+  rw [pow10_eq_zpow, pow2_eq_zpow, zpow_neg, zpow_neg]
+  apply inv_anti₀ (zpow_pos (by norm_num) _)
+  have h1 : (2 : ℚ) ^ (1074 : ℤ) = (2 : ℚ) ^ (1074 : ℕ) := zpow_ofNat 2 1074
+  have h2 : (10 : ℚ) ^ (400 : ℤ) = (10 : ℚ) ^ (400 : ℕ) := zpow_ofNat 10 400
+  rw [h1, h2]
+  have : (2 : ℕ) ^ 1074 ≤ (10 : ℕ) ^ 400 := by decide +kernel
+  exact_mod_cast this
+
+/-- `10^(ilog10 x) ≤ x` down to the smallest subnormal -/
+theorem pow10_ilog10_le_sub {x : ℚ} (hn : pow2 (-1074) ≤ x) : pow10 (ilog10 x) ≤ x := by
+  unfold ilog10
+  apply ilog10Aux_le
+  refine le_trans (pow10_mono ?_) (le_trans pow10_m400_le_sub hn)
+  split_ifs <;> omega
+
+theorem pow2_m1074 : pow2 (-1022 - 52) = pow2 (-1074) := by norm_num
+theorem pow2_m1022_eq : pow2 (-1022) = 4503599627370496 * pow2 (-1074) := by
+  rw [← pow2_52, ← pow2_add]; norm_num
+theorem pow2_m1075 : pow2 (-1075) = pow2 (-1074) / 2 := by
+  have := pow2_succ (-1075)
+  rw [show (-1075 : ℤ) + 1 = -1074 by norm_num] at this
+  rw [this]; ring
+
+/-- a positive subnormal binary64 value is a positive multiple of 2^-1074 below 2^52 -/
+theorem subnormal_form {x : ℚ} (hx : IsF64 x) (hpos : 0 < x) (hs : x < pow2 (-1022)) :
+    ∃ n : ℤ, 1 ≤ n ∧ n < 4503599627370496 ∧ x = n * pow2 (-1074) := by
+  have hu : ulpExp x = -1022 - 52 := ulpExp_of_small hpos hs
+  have hne : x ≠ 0 := ne_of_gt hpos
+  have h := hx
+  unfold IsF64 at h
+  rw [fl64_eq hne, hu, pow2_m1074] at h
+  set n := roundHalfEven (x / pow2 (-1074)) with hn
+  have hup : 0 < pow2 (-1074) := pow2_pos _
+  refine ⟨n, ?_, ?_, h.symm⟩
+  · by_contra hc
+    have hle : (n : ℚ) ≤ 0 := by exact_mod_cast (by omega : n ≤ 0)
+    have : x ≤ 0 := by rw [← h]; exact mul_nonpos_of_nonpos_of_nonneg hle (le_of_lt hup)
+    linarith
+  · by_contra hc
+    have hge : (4503599627370496 : ℚ) ≤ (n : ℚ) := by exact_mod_cast (by omega : (4503599627370496 : ℤ) ≤ n)
+    have : pow2 (-1022) ≤ x := by
+      rw [← h, pow2_m1022_eq]; exact mul_le_mul_of_nonneg_right hge (le_of_lt hup)
+    linarith
+
+/-- a positive subnormal binary64 value is recovered from any rational within half of its (fixed) spacing -/
+theorem fl64_of_near_sub {x d : ℚ} (hx : IsF64 x) (hpos : 0 < x) (hs : x < pow2 (-1022)) (h : |d - x| < pow2 (-1075)) :
+    fl64 d = x := by
+  obtain ⟨n, hn1, hn2, hxn⟩ := subnormal_form hx hpos hs
+  have hup : 0 < pow2 (-1074) := pow2_pos _
+  rw [pow2_m1075, abs_lt] at h
+  have hn1q : (1 : ℚ) ≤ (n : ℚ) := by exact_mod_cast hn1
+  have hn2q : (n : ℚ) ≤ 4503599627370495 := by exact_mod_cast (by omega : n ≤ 4503599627370495)
+  have hxlo : pow2 (-1074) ≤ x := by rw [hxn]; nlinarith
+  have hxhi : x ≤ 4503599627370495 * pow2 (-1074) := by rw [hxn]; exact mul_le_mul_of_nonneg_right hn2q (le_of_lt hup)
+  have hdpos : 0 < d := by linarith
+  have hdsmall : d < pow2 (-1022) := by rw [pow2_m1022_eq]; linarith
+  have hued : ulpExp d = -1022 - 52 := ulpExp_of_small hdpos hdsmall
+  have := fl64_of_near_mul (d := d) (u := pow2 (-1074)) n (ne_of_gt hdpos) (by rw [hued, pow2_m1074]) (by
+    rw [← hxn, abs_lt]; constructor <;> linarith)
+  rw [this, ← hxn]
+
+theorem reprSearch_roundtrip_sub {x : ℚ} (hx : IsF64 x) (hpos : 0 < x) (hs : x < pow2 (-1022)) :
+    fl64 (reprSearch x 16 1) = x := by
+  apply reprSearch_spec x 16 1 (by norm_num)
+  obtain ⟨c, hc, hclose⟩ := candidates_head x 17
+  rw [hc]
+  obtain ⟨n, hn1, _, hxn⟩ := subnormal_form hx hpos hs
+  have hup : 0 < pow2 (-1074) := pow2_pos _
+  have hxlo : pow2 (-1074) ≤ x := by
+    rw [hxn]
+    have : (1 : ℚ) ≤ (n : ℚ) := by exact_mod_cast hn1
+    nlinarith
+  have hk := pow10_ilog10_le_sub hxlo
+  apply fl64_of_near_sub hx hpos hs
+  have he : ilog10 x - ((17 : ℕ) : ℤ) + 1 = ilog10 x + (-16) := by push_cast; ring
+  rw [he, pow10_eq_zpow, zpow_add₀ (by norm_num : (10 : ℚ) ≠ 0), ← pow10_eq_zpow] at hclose
+  have hc16 : (10 : ℚ) ^ (-16 : ℤ) / 2 < 1 / 9007199254740992 := by norm_num
+  have h53 : pow2 (-1022) * (1 / 9007199254740992) = pow2 (-1075) := by
+    have : (1 : ℚ) / 9007199254740992 = pow2 (-53) := by rw [pow2_eq_zpow]; norm_num
+    rw [this, ← pow2_add]; norm_num
+  calc |c - x| ≤ pow10 (ilog10 x) * (10 : ℚ) ^ (-16 : ℤ) / 2 := hclose
+    _ = pow10 (ilog10 x) * ((10 : ℚ) ^ (-16 : ℤ) / 2) := by ring
+    _ ≤ x * ((10 : ℚ) ^ (-16 : ℤ) / 2) := mul_le_mul_of_nonneg_right hk (by positivity)
+    _ < pow2 (-1022) * ((10 : ℚ) ^ (-16 : ℤ) / 2) := mul_lt_mul_of_pos_right hs (by positivity)
+    _ < pow2 (-1022) * (1 / 9007199254740992) := mul_lt_mul_of_pos_left hc16 (pow2_pos _)
+    _ = pow2 (-1075) := h53
+
+/-- **`float(repr(x)) == x` for EVERY binary64 value of the model** — zero, subnormal, normal, either sign -/
+theorem reprValue_roundtrip_all {x : ℚ} (hx : IsF64 x) : fl64 (reprValue x) = x := by
+  by_cases h0 : x = 0
+  · exact reprValue_roundtrip hx (Or.inl h0)
+  by_cases hn : pow2 (-1022) ≤ |x|
+  · exact reprValue_roundtrip hx (Or.inr hn)
+  have hs : |x| < pow2 (-1022) := not_le.mp hn
+  unfold reprValue
+  simp only [h0, if_false]
+  by_cases hneg : x < 0
+  · simp only [hneg, if_true]
+    have hx' : IsF64 (-x) := by unfold IsF64 at hx ⊢; rw [fl64_neg, hx]
+    rw [abs_of_neg hneg] at hs
+    rw [fl64_neg, reprSearch_roundtrip_sub hx' (by linarith) hs]; ring
+  · simp only [hneg, if_false]
+    have hpos : 0 < x := lt_of_le_of_ne (not_lt.mp hneg) (Ne.symm h0)
+    rw [abs_of_pos hpos] at hs
+    exact reprSearch_roundtrip_sub hx hpos hs
+
 end FloatText
